@@ -76,8 +76,6 @@ ASMJIT_FAVOR_SIZE Error init_call_conv(CallConv& cc, CallConvId call_conv_id, co
 }
 
 ASMJIT_FAVOR_SIZE Error init_func_detail(FuncDetail& func, const FuncSignature& signature) noexcept {
-  Support::maybe_unused(signature);
-
   const CallConv& cc = func.call_conv();
   uint32_t arg_count = func.arg_count();
   uint32_t stack_offset = 0;
@@ -137,9 +135,19 @@ ASMJIT_FAVOR_SIZE Error init_func_detail(FuncDetail& func, const FuncSignature& 
       uint32_t gpz_pos = 0;
       uint32_t vec_pos = 0;
 
+      // Apple passes all variadic arguments by stack, each in its own slot of at least 8 bytes. The standard calling
+      // convention doesn't distinguish between named and variadic arguments (`va_index()` is 0xFF if there is no VA).
+      uint32_t va_stack_index = cc.strategy() == CallConvStrategy::kAArch64Apple ? signature.va_index() : uint32_t(FuncSignature::kNoVarArgs);
+
       for (uint32_t i = 0; i < arg_count; i++) {
         FuncValue& arg = func._args[i][0];
         TypeId type_id = arg.type_id();
+
+        if (i == va_stack_index) {
+          gpz_pos = CallConv::kMaxRegArgsPerGroup;
+          vec_pos = CallConv::kMaxRegArgsPerGroup;
+          min_stack_arg_size = 8u;
+        }
 
         if (TypeUtils::is_int(type_id)) {
           uint32_t reg_id = Reg::kIdBad;
